@@ -211,7 +211,9 @@ def get_opcode_module(version_info=None, variant=None):
     elif variant != "Graal":
         vers_str += variant
 
-    return op_imports[canonic_python_version[vers_str]]
+    # Not every version with an opcode table has a canonic release name (1.2 shares
+    # its magic with 1.1): fall back to the table registered under the version itself.
+    return op_imports[canonic_python_version.get(vers_str, vers_str)]
 
 
 def remap_opcodes(op_obj, alternate_opmap):
